@@ -1,6 +1,9 @@
 package message
 
-import "errors"
+import (
+	"bytes"
+	"errors"
+)
 
 // C15 — reference model: a list sorted by option number, insertion order kept among equal numbers.
 
@@ -302,6 +305,72 @@ func zzC15_queries() {
 	} else {
 		symAssert(serr == nil && m == n, "GetStrings returns all values when they fit")
 	}
+}
+
+// Clone and ResetOptionsTo around the 64-byte scratch buffer of Clone: value lengths are decided so that the total
+// stays below, reaches and exceeds it in one, two or three options; the copy equals the original, stays equal when
+// the original's bytes are overwritten afterwards, and the reported size is the total size of all values
+func zzC15_clone() {
+	lens := []int{0, 3, 30, 34, 40, 64, 70}
+	n := 1 + symChoose("options", 3)
+	opts := make(Options, 0, 4)
+	total := 0
+	var vals [][]byte
+	for i := 0; i < n; i++ {
+		l := lens[symChoose("value-length", len(lens))]
+		v := make([]byte, l)
+		for j := range v {
+			v[j] = byte(0x40 + i)
+		}
+		if l > 0 {
+			v[0] = symU8("first-byte")
+		}
+		vals = append(vals, v)
+		opts = opts.Add(Option{ID: OptionID(2000 + i), Value: v})
+		total += l
+	}
+	if total > 64 {
+		symCover("beyond-scratch-buffer")
+	}
+	c, err := opts.Clone()
+	symAssert(err == nil, "Clone succeeds for any total value size")
+	if err != nil {
+		return
+	}
+	same := len(c) == n
+	for i := 0; i < n && same; i++ {
+		if c[i].ID != OptionID(2000+i) || !bytes.Equal(c[i].Value, vals[i]) {
+			same = false
+		}
+	}
+	symAssert(same, "the clone equals the original list")
+	// later edits of the original do not show through
+	for i := 0; i < n; i++ {
+		want := append([]byte(nil), vals[i]...)
+		for j := range vals[i] {
+			vals[i][j] = 0xEE
+		}
+		symAssert(i >= len(c) || bytes.Equal(c[i].Value, want), "values of the clone are unaffected by later edits of the original")
+	}
+	// ResetOptionsTo with a too-small buffer reports the total size needed
+	small := make([]byte, 2)
+	dst := make(Options, 0, 4)
+	_, used, rerr := dst.ResetOptionsTo(small, c)
+	if total > 2 && len(c) > 0 {
+		fits := true
+		rest := 2
+		for i := 0; i < len(c); i++ {
+			if len(c[i].Value) > rest {
+				fits = false
+				break
+			}
+			rest -= len(c[i].Value)
+		}
+		if !fits {
+			symAssert(errors.Is(rerr, ErrTooSmall) && used >= total-2 && used <= total, "a too-small buffer is reported with the size still needed")
+		}
+	}
+	symCover("cloned")
 }
 
 func zzC15_selftest() {
